@@ -43,8 +43,8 @@ Qed.
 (* ------------------------------------------------------------------------------------------------ *)
 Section Refinement.
   Variable H : Type.
-  Variable hash : pwd -> N -> pepper -> H.
-  Variable verify_hash : H -> pwd -> pepper -> bool.
+  Variable hash : pwd -> N -> list N -> H.
+  Variable verify_hash : H -> pwd -> list N -> bool.
   (* Argon2: a hash verifies exactly the password and pepper it was made from *)
   Hypothesis verify_ok : forall pw salt pep pw' pep',
     verify_hash (hash pw salt pep) pw' pep' = true <-> pw' = pw /\ pep' = pep.
@@ -290,7 +290,7 @@ Section Refinement.
         destruct (Rmap_some _ _ _ _ HRm Hg) as [e [He _]]. congruence.
       + inversion Hst; subst s' x. split.
         * cbn [users with_db]. apply wf_app1; [exact Hwf|exact Hg].
-        * exists (rupd r fu (Some (mkEntry pw (c_pepper (r_cfg r)) None))). split.
+        * exists (rupd r fu (Some (mkEntry pw (secret_of (c_pepper (r_cfg r))) None))). split.
           -- apply rs_create_user_ok; [apply (Rmap_none _ _ _ HRm Hg)|apply upd_rupd].
           -- split; [exact Hc|]. intros u'. cbn [users with_db]. rewrite get_uid_app1. cbn [uid rupd r_map].
              destruct (get_user_by_uid (users s) u') as [y|] eqn:Hg'.
@@ -398,7 +398,7 @@ Definition fresh_ok (r : rstate) (o : op) : Prop :=
 Definition hist_tok_ok (r : rstate) (t : N) (a : config * option (N * N)) : Prop :=
   fst a = r_cfg r /\ forall u x, snd a = Some (u, x) <-> holder r t u x.
 
-Definition hist_cred_ok (r : rstate) (u : N) (a : config * option (pwd * pepper)) : Prop :=
+Definition hist_cred_ok (r : rstate) (u : N) (a : config * option (pwd * list N)) : Prop :=
   fst a = r_cfg r /\
   forall pw pep, snd a = Some (pw, pep) <-> exists e, r_map r u = Some e /\ e_pw e = pw /\ e_pep e = pep.
 
@@ -684,7 +684,7 @@ Qed.
 
 Lemma rrun_hist : forall r ops outs r',
   rrun r ops outs r' -> fresh_for r ops ->
-  forall (ta : N -> config * option (N * N)) (ca : N -> config * option (pwd * pepper)),
+  forall (ta : N -> config * option (N * N)) (ca : N -> config * option (pwd * list N)),
     (forall t, hist_tok_ok r t (ta t)) -> (forall u, hist_cred_ok r u (ca u)) ->
     (forall t, hist_tok_ok r' t (fold_left (tok_event t) (combine ops outs) (ta t))) /\
     (forall u, hist_cred_ok r' u (fold_left (cred_event u) (combine ops outs) (ca u))).
@@ -814,8 +814,8 @@ Qed.
 (* Part 3: every history of the model                                                                 *)
 Section Traces.
   Variable H : Type.
-  Variable hash : pwd -> N -> pepper -> H.
-  Variable verify_hash : H -> pwd -> pepper -> bool.
+  Variable hash : pwd -> N -> list N -> H.
+  Variable verify_hash : H -> pwd -> list N -> bool.
   Hypothesis verify_ok : forall pw salt pep pw' pep',
     verify_hash (hash pw salt pep) pw' pep' = true <-> pw' = pw /\ pep' = pep.
 
@@ -849,7 +849,7 @@ Section Traces.
   Qed.
 
   Record Inv (s : state) (r : rstate) (ta : N -> config * option (N * N))
-             (ca : N -> config * option (pwd * pepper)) : Prop := mkInv {
+             (ca : N -> config * option (pwd * list N)) : Prop := mkInv {
     inv_wf : wf (users s);
     inv_R : R s r;
     inv_tok : forall t, hist_tok_ok r t (ta t);
@@ -1058,7 +1058,7 @@ Section Traces.
   (* ---- passwords ---- *)
   Theorem verify_verdict : forall c pre u pw, rng_ok pre ->
     exists b, snd (step (fst (run (init c) pre)) (Verify u pw)) = Ok (VBool b) /\
-              (b = true <-> cred_status c (history c pre) u = Some (pw, c_pepper (cfg (fst (run (init c) pre))))).
+              (b = true <-> cred_status c (history c pre) u = Some (pw, secret_of (c_pepper (cfg (fst (run (init c) pre)))))).
   Proof.
     intros c pre u pw Hr.
     assert (Hr' : rng_ok (pre ++ [Verify u pw])).
@@ -1173,8 +1173,8 @@ Qed.
 (* Part 5: the clauses of the property, in plain terms, for every history of the model                *)
 Section Plain.
   Variable H : Type.
-  Variable hash : pwd -> N -> pepper -> H.
-  Variable verify_hash : H -> pwd -> pepper -> bool.
+  Variable hash : pwd -> N -> list N -> H.
+  Variable verify_hash : H -> pwd -> list N -> bool.
   Hypothesis verify_ok : forall pw salt pep pw' pep',
     verify_hash (hash pw salt pep) pw' pep' = true <-> pw' = pw /\ pep' = pep.
 
@@ -1306,17 +1306,10 @@ Proof.
   - intros E. inversion E; subst. rewrite N.eqb_refl. cbn. apply IH. reflexivity.
 Qed.
 
-Lemma pepper_eqb_eq : forall a b, pepper_eqb a b = true <-> a = b.
-Proof.
-  intros [a|] [b|]; cbn [pepper_eqb]; split; try discriminate; try reflexivity.
-  - intros Hb. apply list_eqb_eq in Hb. congruence.
-  - intros E. inversion E; subst. apply list_eqb_eq. reflexivity.
-Qed.
-
 Lemma xverify_ok : forall pw salt pep pw' pep',
   xverify (xhash pw salt pep) pw' pep' = true <-> pw' = pw /\ pep' = pep.
 Proof.
-  intros. unfold xverify, xhash. cbn [fst snd]. rewrite andb_true_iff, list_eqb_eq, pepper_eqb_eq. tauto.
+  intros. unfold xverify, xhash. cbn [fst snd]. rewrite andb_true_iff, !list_eqb_eq. tauto.
 Qed.
 
 (* with the old refresh_session a token that has just been rejected as expired is accepted again *)
@@ -1373,8 +1366,8 @@ Qed.
 (* Part 8: expired or unknown tokens are rejected by every operation, and nothing changes              *)
 Section Plain2.
   Variable H : Type.
-  Variable hash : pwd -> N -> pepper -> H.
-  Variable verify_hash : H -> pwd -> pepper -> bool.
+  Variable hash : pwd -> N -> list N -> H.
+  Variable verify_hash : H -> pwd -> list N -> bool.
   Hypothesis verify_ok : forall pw salt pep pw' pep',
     verify_hash (hash pw salt pep) pw' pep' = true <-> pw' = pw /\ pep' = pep.
 
@@ -1457,8 +1450,8 @@ Qed.
 
 Section Plain3.
   Variable H : Type.
-  Variable hash : pwd -> N -> pepper -> H.
-  Variable verify_hash : H -> pwd -> pepper -> bool.
+  Variable hash : pwd -> N -> list N -> H.
+  Variable verify_hash : H -> pwd -> list N -> bool.
   Hypothesis verify_ok : forall pw salt pep pw' pep',
     verify_hash (hash pw salt pep) pw' pep' = true <-> pw' = pw /\ pep' = pep.
 
